@@ -1,4 +1,4 @@
-import EdpVerif.Lemmas.Procs
+import EdpVerif.Lemmas.ProcsLate
 /-
 C18 — local processes: ordered exactly-once delivery, exit notices, name lifecycle.
 Property theorems only; the model is EdpVerif/Impl/Procs.lean (small-step semantics of the registry, the mailboxes, the
@@ -9,8 +9,8 @@ next atomic step of its call), `Ev.proc p k` (the task of process `p` takes its 
 naturals; every task may make any number of calls. All statements quantify over every mailbox capacity and every schedule
 unless a hypothesis says otherwise; a step that would block is skipped by `run`.
 
-Known findings (full statement false of the code, witness proved, guarded version proved):
-  C18_exit_notice_for_every_link / C18_monitor_notice_for_every_monitor — see `C18_not_…` below.
+The former known findings kf-c18-late-link / kf-c18-late-monitor are repaired in the code (closed link / monitor sets,
+`noproc` notices); `C18_exit_notice_for_every_link` / `C18_monitor_notice_for_every_monitor` are the unguarded statements.
 -/
 namespace Edp.Props.C18
 open Edp Edp.Impl.Procs
@@ -25,6 +25,7 @@ theorem C18_fifo_exactly_once (cap : Nat) (evs : List Ev) (p : Pid) :
     (st.procs p).accepted.map (·.2) = (st.procs p).handled ++ (st.procs p).mailbox :=
   (allInv_run cap evs).fifo p
 
+set_option maxRecDepth 8000 in
 example : ((run (St.init 8) (callEvs 0 (.spawn true) ++ callEvs 0 (.send 0 5 false) ++ callEvs 0 (.send 0 6 false) ++
     [.proc 0 0])).procs 0).handled = [.regular 5 false] := by decide
 
@@ -48,6 +49,7 @@ theorem C18_per_sender_order (cap : Nat) (evs : List Ev) (t : Tid) (p : Pid) :
     st.acceptedFrom p t = st.sentTo t p :=
   (allInv_run cap evs).order t p
 
+set_option maxRecDepth 8000 in
 example : (run (St.init 8) (callEvs 0 (.spawn true) ++ callEvs 1 (.send 0 5 false) ++ callEvs 0 (.send 0 6 false) ++
     callEvs 1 (.send 0 7 false))).sentTo 1 0 = [.regular 5 false, .regular 7 false] := by decide
 
@@ -105,45 +107,125 @@ theorem C18_exit_at_most_once (cap : Nat) (evs : List Ev) (p a : Pid) :
     have : 1 ≤ (st.procs p).snapL.count a := by omega
     exact List.count_pos_iff.mp this
 
-/-- exactly once to every live linked process (the guarded statement the code meets): when `p` is through with its links,
-every process that was in `p`'s link set at the moment `p` read it has accepted exactly one `Exit{from: p}` — unless it
-was not in the registry at that moment or has itself left the registry since -/
-theorem C18_exit_notice_delivered_partial (cap : Nat) (evs : List Ev) (p a : Pid) :
+/-- never two: under every schedule a mailbox accepts at most one exit notice about `p`, whatever its reason — the one the
+terminating task sends to its link set, or the `noproc` one `Node::link` sends for a link that reached the closed set;
+repeating the `link`, or `unlink` followed by `link`, after the set was closed does not produce a second one -/
+theorem C18_exit_notice_never_twice (cap : Nat) (evs : List Ev) (p a : Pid) :
     let st := run (St.init cap) evs
-    (st.procs p).pc.linksDone = true → a ∈ (st.procs p).snapL →
-      st.timesAccepted a (.exit p) = 1 ∨
-        (st.timesAccepted a (.exit p) = 0 ∧ (a ∉ (st.procs p).liveL ∨ (st.procs a).pc.gone = true)) := by
+    st.timesAccepted a (.exit p) + st.timesAccepted a (.exitNoproc p) ≤ 1 := by
   dsimp only
-  have hi := allInv_run cap evs
-  generalize run (St.init cap) evs = st at hi ⊢
-  intro hd hm
-  obtain ⟨hs, ht⟩ := linksDone_started hd
+  have hi2 := allInv2_run cap evs
+  generalize run (St.init cap) evs = st at hi2 ⊢
+  have hi := hi2.base
   have hc := hi.exitCount p a
-  have hl := (hi.linkCons p a).1 hs
-  have hn := nodup_count_le_one (hi.nodup p).2.1 a
-  have h1 := count_pos_of_mem hm
-  rw [ht] at hl
-  simp only [List.count_nil, Nat.zero_add] at hl
-  by_cases hsk : a ∈ (st.procs p).skipL
-  · right
-    have := count_pos_of_mem hsk
-    exact ⟨by omega, hi.skip.1 p a hsk⟩
-  · left
-    have : (st.procs p).skipL.count a = 0 := List.count_eq_zero.mpr hsk
+  have hn := hi2.exitN p a
+  have hcl := (hi2.closed p).1
+  have hnl := nodup_count_le_one (hi.nodup p).1 a
+  have hd : (doneL st).count (p, a) = st.sentNL.count (p, a) + st.skipNL.count (p, a) + st.noRegL.count (p, a) := by
+    simp [doneL, List.count_append, Nat.add_assoc]
+  have hlate : st.sentNL.count (p, a) ≤ st.lateL.count (p, a) := by
+    by_cases hp : ∃ t, (st.cpc t).pendL = some (p, a)
+    · have := hi2.lateL.owed _ hp; omega
+    · have := hi2.lateL.settled (p, a) (fun t ht => hp ⟨t, ht⟩); omega
+  cases hs : (st.procs p).pc.startedL with
+  | false =>
+    rw [hs] at hcl
+    have h0 := (hi2.lsplit p a).2 hcl
+    have := ((hi.linkCons p a).2 hs).1
+    have : st.timesAccepted a (.exit p) = 0 := by rw [hc, this]; rfl
+    omega
+  | true =>
+    rw [hs] at hcl
+    have h0 := (hi2.lsplit p a).1 hcl
+    have := (hi.linkCons p a).1 hs
     omega
 
+/-- never zero (the full statement; formerly known finding kf-c18-late-link): when `p` is through with its links, EVERY
+process in `p`'s link set — whether the link was there when `p` collected the set or was accepted afterwards, from either
+side of `link` — has accepted exactly one exit notice about `p` (reason `error` or `noproc`), unless it was not in the
+registry when its notice was due (`liveL` / `noRegL`), has itself left the registry, or the `link` call that came late is
+still running: then exactly one client task is inside that call and owes the notice (`C18_late_notice_is_sent`) -/
+theorem C18_exit_notice_for_every_link (cap : Nat) (evs : List Ev) (p a : Pid) :
+    let st := run (St.init cap) evs
+    (st.procs p).pc.linksDone = true → a ∈ (st.procs p).links →
+      st.timesAccepted a (.exit p) + st.timesAccepted a (.exitNoproc p) = 1 ∨
+        (st.timesAccepted a (.exit p) + st.timesAccepted a (.exitNoproc p) = 0 ∧
+          (a ∉ (st.procs p).liveL ∨ (st.procs a).pc.gone = true ∨ (p, a) ∈ st.noRegL ∨
+            ∃ t, (st.cpc t).pendL = some (p, a) ∧ ∀ t', (st.cpc t').pendL = some (p, a) → t' = t)) := by
+  dsimp only
+  have hi2 := allInv2_run cap evs
+  generalize run (St.init cap) evs = st at hi2 ⊢
+  have hi := hi2.base
+  intro hdone hm
+  obtain ⟨hs, ht⟩ := linksDone_started hdone
+  have hc := hi.exitCount p a
+  have hn := hi2.exitN p a
+  have hcl := (hi2.closed p).1
+  rw [hs] at hcl
+  have h0 := (hi2.lsplit p a).1 hcl
+  have hl := (hi.linkCons p a).1 hs
+  rw [ht] at hl
+  simp only [List.count_nil, Nat.zero_add] at hl
+  have hnl := nodup_count_le_one (hi.nodup p).1 a
+  have h1 := count_pos_of_mem hm
+  have hd : (doneL st).count (p, a) = st.sentNL.count (p, a) + st.skipNL.count (p, a) + st.noRegL.count (p, a) := by
+    simp [doneL, List.count_append, Nat.add_assoc]
+  by_cases hp : ∃ t, (st.cpc t).pendL = some (p, a)
+  · have := hi2.lateL.owed _ hp
+    obtain ⟨t, ht'⟩ := hp
+    right
+    exact ⟨by omega, Or.inr (Or.inr (Or.inr ⟨t, ht', fun t' h' => hi2.lateL.uniq t' t _ h' ht'⟩))⟩
+  · have := hi2.lateL.settled (p, a) (fun t ht => hp ⟨t, ht⟩)
+    by_cases e1 : a ∈ (st.procs p).skipL
+    · have := count_pos_of_mem e1
+      right
+      refine ⟨by omega, ?_⟩
+      rcases hi.skip.1 p a e1 with h | h
+      · exact Or.inl h
+      · exact Or.inr (Or.inl h)
+    · have e1' : (st.procs p).skipL.count a = 0 := List.count_eq_zero.mpr e1
+      by_cases e2 : (p, a) ∈ st.skipNL
+      · have := count_pos_of_mem e2
+        right
+        exact ⟨by omega, Or.inr (Or.inl (hi2.skipN.1 _ e2))⟩
+      · have e2' : st.skipNL.count (p, a) = 0 := List.count_eq_zero.mpr e2
+        by_cases e3 : (p, a) ∈ st.noRegL
+        · have := count_pos_of_mem e3
+          right
+          exact ⟨by omega, Or.inr (Or.inr (Or.inl e3))⟩
+        · have e3' : st.noRegL.count (p, a) = 0 := List.count_eq_zero.mpr e3
+          left
+          omega
+
+set_option maxRecDepth 8000 in
 example : let st := run (St.init 8) (callEvs 0 (.spawn true) ++ callEvs 0 (.spawn true) ++ callEvs 0 (.link 0 1) ++
     callEvs 0 (.send 1 7 true) ++ List.replicate 5 (.proc 1 0))
     (st.procs 1).pc.linksDone = true ∧ st.timesAccepted 0 (.exit 1) = 1 := by decide
 
-/-- the link set a terminating process notifies is its link set at the step that reads it (`get_links`), and "live" is
-membership of `by_pid` at that same step -/
+set_option maxRecDepth 8000 in
+/-- the former witness of kf-c18-late-link: `link(0, 1)` completes after process 1 has closed its link set and before it leaves
+the registry — process 0 now gets the `noproc` notice, once -/
+example : let st := run (St.init 1000) (callEvs 0 (.spawn true) ++ callEvs 0 (.spawn true) ++ callEvs 0 (.send 1 7 true) ++
+    [.proc 1 0, .proc 1 0] ++ callEvs 0 (.link 0 1) ++ [.proc 1 0, .proc 1 0, .proc 1 0, .proc 1 0])
+    st.out.getLast? = some (0, .ok) ∧ (st.procs 1).pc = .dead ∧ 0 ∈ (st.procs 1).links ∧
+      st.timesAccepted 0 (.exit 1) = 0 ∧ st.timesAccepted 0 (.exitNoproc 1) = 1 := by decide
+
+set_option maxRecDepth 8000 in
+/-- and from the other side: `link(1, 0)` with the terminating process as `from` -/
+example : let st := run (St.init 1000) (callEvs 0 (.spawn true) ++ callEvs 0 (.spawn true) ++ callEvs 0 (.send 1 7 true) ++
+    [.proc 1 0, .proc 1 0] ++ callEvs 0 (.link 1 0) ++ callEvs 0 (.unlink 0 1) ++ callEvs 0 (.link 0 1) ++
+    [.proc 1 0, .proc 1 0, .proc 1 0, .proc 1 0])
+    (st.procs 1).pc = .dead ∧ st.timesAccepted 0 (.exit 1) = 0 ∧ st.timesAccepted 0 (.exitNoproc 1) = 1 := by decide
+
+/-- the link set a terminating process notifies is its link set at the step that reads it (`close_links`), "live" is
+membership of `by_pid` at that same step, and the same step closes the set -/
 theorem C18_links_read_in_one_step (st : St) (p : Pid) (k : Nat) (h : (st.procs p).pc = .exiting) :
     ∃ st', procStep st p k = some st' ∧ (st'.procs p).snapL = (st.procs p).links ∧ (st'.procs p).liveL = st.byPid ∧
-      (st'.procs p).pc = .notifyL (st.procs p).links := by
-  have hstep : procStep st p k = some (st.modP p fun q => { q with pc := .notifyL q.links, snapL := q.links, liveL := st.byPid }) := by
+      (st'.procs p).pc = .notifyL (st.procs p).links ∧ (st'.procs p).closedL = true := by
+  have hstep : procStep st p k = some (st.modP p fun q =>
+      { q with pc := .notifyL q.links, closedL := true, snapL := q.links, liveL := st.byPid }) := by
     unfold procStep; rw [h]
-  exact ⟨_, hstep, by simp [St.modP], by simp [St.modP], by simp [St.modP]⟩
+  exact ⟨_, hstep, by simp [St.modP], by simp [St.modP], by simp [St.modP], by simp [St.modP]⟩
 
 /-- the same for monitors, with the monitor's own reference: a mailbox accepts `MonitorExit{monitored: p, reference: r}` at
 most once, and only if the pair (receiver, r) was in `p`'s monitor set when `p` read it -/
@@ -168,66 +250,195 @@ theorem C18_monitor_at_most_once (cap : Nat) (evs : List Ev) (p a : Pid) (r : Re
     have : 1 ≤ (st.procs p).snapM.count (a, r) := by omega
     exact List.count_pos_iff.mp this
 
-/-- exactly once to every live monitoring process, with ITS reference (guarded as for links) -/
-theorem C18_monitor_notice_delivered_partial (cap : Nat) (evs : List Ev) (p a : Pid) (r : Ref) :
+/-- never two notices for one monitor, whatever the reason -/
+theorem C18_monitor_notice_never_twice (cap : Nat) (evs : List Ev) (p a : Pid) (r : Ref) :
     let st := run (St.init cap) evs
-    (st.procs p).pc.monsDone = true → (a, r) ∈ (st.procs p).snapM →
-      st.timesAccepted a (.monExit p r) = 1 ∨
-        (st.timesAccepted a (.monExit p r) = 0 ∧ (a ∉ (st.procs p).liveM ∨ (st.procs a).pc.gone = true)) := by
+    st.timesAccepted a (.monExit p r) + st.timesAccepted a (.monNoproc p r) ≤ 1 := by
   dsimp only
-  have hi := allInv_run cap evs
-  generalize run (St.init cap) evs = st at hi ⊢
-  intro hd hm
-  obtain ⟨hs, ht⟩ := monsDone_linksDone hd
+  have hi2 := allInv2_run cap evs
+  generalize run (St.init cap) evs = st at hi2 ⊢
+  have hi := hi2.base
   have hc := hi.monCount p a r
-  have hl := (hi.monCons p (a, r)).1 hs
-  have hn := nodup_count_le_one (hi.nodup p).2.2.2 (a, r)
-  have h1 := count_pos_of_mem hm
-  rw [ht] at hl
-  simp only [List.count_nil, Nat.zero_add] at hl
-  by_cases hsk : (a, r) ∈ (st.procs p).skipM
-  · right
-    have := count_pos_of_mem hsk
-    exact ⟨by omega, hi.skipM.1 p (a, r) hsk⟩
-  · left
-    have : (st.procs p).skipM.count (a, r) = 0 := List.count_eq_zero.mpr hsk
+  have hn := hi2.monN p a r
+  have hcl := (hi2.closed p).2
+  have hnl := nodup_count_le_one (hi.nodup p).2.2.1 (a, r)
+  have hd : (doneM st).count (p, (a, r)) =
+      st.sentNM.count (p, (a, r)) + st.skipNM.count (p, (a, r)) + st.noRegM.count (p, (a, r)) := by
+    simp [doneM, List.count_append, Nat.add_assoc]
+  have hlate : st.sentNM.count (p, (a, r)) ≤ st.lateM.count (p, (a, r)) := by
+    by_cases hp : ∃ t, (st.cpc t).pendM = some (p, (a, r))
+    · have := hi2.lateM.owed _ hp; omega
+    · have := hi2.lateM.settled (p, (a, r)) (fun t ht => hp ⟨t, ht⟩); omega
+  cases hs : (st.procs p).pc.linksDone with
+  | false =>
+    rw [hs] at hcl
+    have h0 := (hi2.msplit p (a, r)).2 hcl
+    have := ((hi.monCons p (a, r)).2 hs).1
+    have : st.timesAccepted a (.monExit p r) = 0 := by rw [hc, this]; rfl
+    omega
+  | true =>
+    rw [hs] at hcl
+    have h0 := (hi2.msplit p (a, r)).1 hcl
+    have := (hi.monCons p (a, r)).1 hs
     omega
 
+/-- never zero (the full statement; formerly known finding kf-c18-late-monitor): when `p` is through with its monitors,
+EVERY monitor `(a, r)` in `p`'s monitor set — collected by `p` or accepted afterwards — has been answered by exactly one
+`MonitorExit{monitored: p, reference: r}` in `a`'s mailbox (reason `error` or `noproc`), with the exceptions of
+`C18_exit_notice_for_every_link` -/
+theorem C18_monitor_notice_for_every_monitor (cap : Nat) (evs : List Ev) (p a : Pid) (r : Ref) :
+    let st := run (St.init cap) evs
+    (st.procs p).pc.monsDone = true → (a, r) ∈ (st.procs p).monitors →
+      st.timesAccepted a (.monExit p r) + st.timesAccepted a (.monNoproc p r) = 1 ∨
+        (st.timesAccepted a (.monExit p r) + st.timesAccepted a (.monNoproc p r) = 0 ∧
+          (a ∉ (st.procs p).liveM ∨ (st.procs a).pc.gone = true ∨ (p, (a, r)) ∈ st.noRegM ∨
+            ∃ t, (st.cpc t).pendM = some (p, (a, r)) ∧ ∀ t', (st.cpc t').pendM = some (p, (a, r)) → t' = t)) := by
+  dsimp only
+  have hi2 := allInv2_run cap evs
+  generalize run (St.init cap) evs = st at hi2 ⊢
+  have hi := hi2.base
+  intro hdone hm
+  obtain ⟨hs, ht⟩ := monsDone_linksDone hdone
+  have hc := hi.monCount p a r
+  have hn := hi2.monN p a r
+  have hcl := (hi2.closed p).2
+  rw [hs] at hcl
+  have h0 := (hi2.msplit p (a, r)).1 hcl
+  have hl := (hi.monCons p (a, r)).1 hs
+  rw [ht] at hl
+  simp only [List.count_nil, Nat.zero_add] at hl
+  have hnl := nodup_count_le_one (hi.nodup p).2.2.1 (a, r)
+  have h1 := count_pos_of_mem hm
+  have hd : (doneM st).count (p, (a, r)) =
+      st.sentNM.count (p, (a, r)) + st.skipNM.count (p, (a, r)) + st.noRegM.count (p, (a, r)) := by
+    simp [doneM, List.count_append, Nat.add_assoc]
+  by_cases hp : ∃ t, (st.cpc t).pendM = some (p, (a, r))
+  · have := hi2.lateM.owed _ hp
+    obtain ⟨t, ht'⟩ := hp
+    right
+    exact ⟨by omega, Or.inr (Or.inr (Or.inr ⟨t, ht', fun t' h' => hi2.lateM.uniq t' t _ h' ht'⟩))⟩
+  · have := hi2.lateM.settled (p, (a, r)) (fun t ht => hp ⟨t, ht⟩)
+    by_cases e1 : (a, r) ∈ (st.procs p).skipM
+    · have := count_pos_of_mem e1
+      right
+      refine ⟨by omega, ?_⟩
+      rcases hi.skipM.1 p (a, r) e1 with h | h
+      · exact Or.inl h
+      · exact Or.inr (Or.inl h)
+    · have e1' : (st.procs p).skipM.count (a, r) = 0 := List.count_eq_zero.mpr e1
+      by_cases e2 : (p, (a, r)) ∈ st.skipNM
+      · have := count_pos_of_mem e2
+        right
+        exact ⟨by omega, Or.inr (Or.inl (hi2.skipN.2 _ e2))⟩
+      · have e2' : st.skipNM.count (p, (a, r)) = 0 := List.count_eq_zero.mpr e2
+        by_cases e3 : (p, (a, r)) ∈ st.noRegM
+        · have := count_pos_of_mem e3
+          right
+          exact ⟨by omega, Or.inr (Or.inr (Or.inl e3))⟩
+        · have e3' : st.noRegM.count (p, (a, r)) = 0 := List.count_eq_zero.mpr e3
+          left
+          omega
+
+set_option maxRecDepth 8000 in
 example : let st := run (St.init 8) (callEvs 0 (.spawn true) ++ callEvs 0 (.spawn true) ++ callEvs 0 (.monitor 0 1) ++
     callEvs 0 (.monitor 0 1) ++ callEvs 0 (.send 1 7 true) ++ List.replicate 8 (.proc 1 0))
     (st.procs 1).pc.monsDone = true ∧ st.timesAccepted 0 (.monExit 1 0) = 1 ∧ st.timesAccepted 0 (.monExit 1 1) = 1 := by
   decide
 
-/-
-KNOWN FINDING (kf-c18-late-link). Full statement, false of the code:
-  theorem C18_exit_notice_for_every_link : ∀ cap evs p a, let st := run (St.init cap) evs;
-    (st.procs p).pc = .dead → a ∈ (st.procs p).links → a ∈ st.byPid → (st.procs a).pc = .recv → st.timesAccepted a (.exit p) = 1
-(a link the node accepted while the process was still in the registry must be honoured). Guarded version:
-`C18_exit_notice_delivered_partial` (guard: the link is in the set at the step that reads it).
--/
-/-- witness: `link(0, 1)` completes, with Ok, after process 1 has read its link set and before it leaves the registry; process
-0 is alive and in the registry at the end, linked on both sides, and no `Exit` was ever put into its mailbox -/
-theorem C18_not_exit_notice_for_every_link :
-    ∃ evs : List Ev, let st := run (St.init 1000) evs
-      st.out.getLast? = some (0, .ok) ∧ (st.procs 1).pc = .dead ∧ 0 ∈ (st.procs 1).links ∧ 1 ∈ (st.procs 0).links ∧
-        0 ∈ st.byPid ∧ (st.procs 0).pc = .recv ∧ st.timesAccepted 0 (.exit 1) = 0 :=
-  ⟨callEvs 0 (.spawn true) ++ callEvs 0 (.spawn true) ++ callEvs 0 (.send 1 7 true) ++
-      [.proc 1 0, .proc 1 0] ++ callEvs 0 (.link 0 1) ++ [.proc 1 0, .proc 1 0, .proc 1 0, .proc 1 0], by decide⟩
+set_option maxRecDepth 8000 in
+/-- the former witness of kf-c18-late-monitor: `monitor(0, 1)` returns its reference after process 1 has closed its monitor
+set and before it leaves the registry — process 0 gets `MonitorExit{1, that reference, noproc}`, once -/
+example : let st := run (St.init 1000) (callEvs 0 (.spawn true) ++ callEvs 0 (.spawn true) ++ callEvs 0 (.send 1 7 true) ++
+    [.proc 1 0, .proc 1 0, .proc 1 0] ++ callEvs 0 (.monitor 0 1) ++ [.proc 1 0, .proc 1 0, .proc 1 0])
+    st.out.getLast? = some (0, .ref 0) ∧ (st.procs 1).pc = .dead ∧ (0, 0) ∈ (st.procs 1).monitors ∧
+      st.timesAccepted 0 (.monExit 1 0) = 0 ∧ st.timesAccepted 0 (.monNoproc 1 0) = 1 := by decide
 
-/-
-KNOWN FINDING (kf-c18-late-monitor). Full statement, false of the code:
-  theorem C18_monitor_notice_for_every_monitor : ∀ cap evs p a r, let st := run (St.init cap) evs;
-    (st.procs p).pc = .dead → (a, r) ∈ (st.procs p).monitors → a ∈ st.byPid → (st.procs a).pc = .recv →
-      st.timesAccepted a (.monExit p r) = 1
-Guarded version: `C18_monitor_notice_delivered_partial`.
--/
-/-- witness: `monitor(0, 1)` returns its reference after process 1 has read its monitor set and before it leaves the registry -/
-theorem C18_not_monitor_notice_for_every_monitor :
-    ∃ evs : List Ev, let st := run (St.init 1000) evs
-      st.out.getLast? = some (0, .ref 0) ∧ (st.procs 1).pc = .dead ∧ (0, 0) ∈ (st.procs 1).monitors ∧
-        0 ∈ st.byPid ∧ (st.procs 0).pc = .recv ∧ st.timesAccepted 0 (.monExit 1 0) = 0 :=
-  ⟨callEvs 0 (.spawn true) ++ callEvs 0 (.spawn true) ++ callEvs 0 (.send 1 7 true) ++
-      [.proc 1 0, .proc 1 0, .proc 1 0] ++ callEvs 0 (.monitor 0 1) ++ [.proc 1 0, .proc 1 0, .proc 1 0], by decide⟩
+/-- the owed notice is really sent: a client task that holds the receiver's handle after a refused `add_link`
+(`signal_noproc_exit`) can take its step whenever the receiver's mailbox is open and not full, the step puts
+`Exit{from: b, noproc}` at the end of `a`'s queue, and the `link` call returns Ok -/
+theorem C18_late_notice_is_sent (st : St) (t : Tid) (a b : Pid) (hpc : st.cpc t = .lkD a b)
+    (hopen : (st.procs a).closed = false) (hroom : (st.procs a).mailbox.length < st.cap) :
+    ∃ st', clientStep st t = some st' ∧ (st'.procs a).mailbox = (st.procs a).mailbox ++ [.exitNoproc b] ∧
+      st'.out = st.out ++ [(t, .ok)] ∧ st'.cpc t = .idle := by
+  have hstep : clientStep st t = some ({ st.deliver (.late t) a (.exitNoproc b) with sentNL := st.sentNL ++ [(b, a)] }.ret t .ok) := by
+    unfold clientStep; rw [hpc]; simp only [hopen, hroom, ↓reduceIte, Bool.false_eq_true]
+  exact ⟨_, hstep, by simp [St.ret, St.deliver, St.modP, Proc.push], by simp [St.ret, St.deliver, St.modP], by simp [St.ret]⟩
+
+/-- a closed set is frozen: `unlink` / `demonitor` on a process that has collected its links / monitors changes nothing, so
+the sets keep recording who is (or was) notified -/
+theorem C18_closed_set_is_frozen (st : St) (t : Tid) (a b : Pid) (r : Ref) :
+    (st.cpc t = .lk4 false a b → (st.procs b).closedL = true →
+      ∃ st', clientStep st t = some st' ∧ st'.procs = st.procs ∧ st'.out = st.out ++ [(t, .ok)]) ∧
+    (st.cpc t = .dem2 a b r → (st.procs b).closedM = true →
+      ∃ st', clientStep st t = some st' ∧ st'.procs = st.procs ∧ st'.out = st.out ++ [(t, .ok)]) := by
+  refine ⟨fun hpc hc => ⟨st.ret t .ok, ?_, rfl, rfl⟩, fun hpc hc => ⟨st.ret t .ok, ?_, rfl, rfl⟩⟩
+  · unfold clientStep; rw [hpc]; simp [hc]
+  · unfold clientStep; rw [hpc]; simp [hc]
+
+/-- unlink / demonitor BEFORE the process collects its sets: no notice. A process that is not in `p`'s link (monitor) set
+when `p` closes it and does not link (monitor) afterwards never gets a notice about `p` -/
+theorem C18_no_notice_without_link (cap : Nat) (evs : List Ev) (p a : Pid) (r : Ref) :
+    let st := run (St.init cap) evs
+    (a ∉ (st.procs p).links → st.timesAccepted a (.exit p) + st.timesAccepted a (.exitNoproc p) = 0) ∧
+    ((a, r) ∉ (st.procs p).monitors → st.timesAccepted a (.monExit p r) + st.timesAccepted a (.monNoproc p r) = 0) := by
+  dsimp only
+  have hi2 := allInv2_run cap evs
+  generalize run (St.init cap) evs = st at hi2 ⊢
+  have hi := hi2.base
+  constructor
+  · intro hm
+    have h0 : (st.procs p).links.count a = 0 := List.count_eq_zero.mpr hm
+    have hc := hi.exitCount p a
+    have hn := hi2.exitN p a
+    have hcl := (hi2.closed p).1
+    have hd : (doneL st).count (p, a) = st.sentNL.count (p, a) + st.skipNL.count (p, a) + st.noRegL.count (p, a) := by
+      simp [doneL, List.count_append, Nat.add_assoc]
+    have hlate : st.sentNL.count (p, a) ≤ st.lateL.count (p, a) := by
+      by_cases hp : ∃ t, (st.cpc t).pendL = some (p, a)
+      · have := hi2.lateL.owed _ hp; omega
+      · have := hi2.lateL.settled (p, a) (fun t ht => hp ⟨t, ht⟩); omega
+    cases hs : (st.procs p).pc.startedL with
+    | false =>
+      rw [hs] at hcl
+      have := (hi2.lsplit p a).2 hcl
+      have h2 := ((hi.linkCons p a).2 hs).1
+      have : st.timesAccepted a (.exit p) = 0 := by rw [hc, h2]; rfl
+      omega
+    | true =>
+      rw [hs] at hcl
+      have := (hi2.lsplit p a).1 hcl
+      have := (hi.linkCons p a).1 hs
+      omega
+  · intro hm
+    have h0 : (st.procs p).monitors.count (a, r) = 0 := List.count_eq_zero.mpr hm
+    have hc := hi.monCount p a r
+    have hn := hi2.monN p a r
+    have hcl := (hi2.closed p).2
+    have hd : (doneM st).count (p, (a, r)) =
+        st.sentNM.count (p, (a, r)) + st.skipNM.count (p, (a, r)) + st.noRegM.count (p, (a, r)) := by
+      simp [doneM, List.count_append, Nat.add_assoc]
+    have hlate : st.sentNM.count (p, (a, r)) ≤ st.lateM.count (p, (a, r)) := by
+      by_cases hp : ∃ t, (st.cpc t).pendM = some (p, (a, r))
+      · have := hi2.lateM.owed _ hp; omega
+      · have := hi2.lateM.settled (p, (a, r)) (fun t ht => hp ⟨t, ht⟩); omega
+    cases hs : (st.procs p).pc.linksDone with
+    | false =>
+      rw [hs] at hcl
+      have := (hi2.msplit p (a, r)).2 hcl
+      have h2 := ((hi.monCons p (a, r)).2 hs).1
+      have : st.timesAccepted a (.monExit p r) = 0 := by rw [hc, h2]; rfl
+      omega
+    | true =>
+      rw [hs] at hcl
+      have := (hi2.msplit p (a, r)).1 hcl
+      have := (hi.monCons p (a, r)).1 hs
+      omega
+
+set_option maxRecDepth 8000 in
+example : let st := run (St.init 8) (callEvs 0 (.spawn true) ++ callEvs 0 (.spawn true) ++ callEvs 0 (.link 0 1) ++
+    callEvs 0 (.monitor 0 1) ++ callEvs 0 (.unlink 1 0) ++ callEvs 0 (.demonitor 0 1 0) ++ callEvs 0 (.send 1 7 true) ++
+    List.replicate 8 (.proc 1 0))
+    (st.procs 1).pc = .dead ∧ (st.procs 0).accepted = [] := by decide
 
 /-! ## C. names and pids -/
 
@@ -241,6 +452,47 @@ theorem C18_name_unique (cap : Nat) (evs : List Ev) :
   have h2 := nameFind_of_mem hn hq
   rw [h1] at h2
   exact Option.some.inj h2
+
+/-- a name is never re-pointed: whatever step any task takes (register, unregister, spawn, the sweep of a terminating
+process, …, in any interleaving), a name that resolves to `p` before the step resolves to `p` after it or to nothing — it
+reaches another process only through a state in which it is free -/
+theorem C18_name_never_repointed (st st' : St) (e : Ev) (n : Name) (p : Pid) (hu : (st.byName.map (·.1)).Nodup)
+    (h : stepEv st e = some st') (hn : nameFind n st.byName = some p) :
+    nameFind n st'.byName = some p ∨ nameFind n st'.byName = none := by
+  cases hq : nameFind n st'.byName with
+  | none => exact Or.inr rfl
+  | some q =>
+    left
+    have hm := nameFind_some_mem hq
+    have hsub : (n, q) ∈ st.byName := by
+      cases e with
+      | start t op =>
+        simp only [stepEv] at h
+        split at h
+        · cases h; exact hm
+        · cases h
+      | cont t =>
+        rcases clientStep_byName h with e | ⟨n', p', hf, _, e⟩ | ⟨n', e⟩
+        · rwa [e] at hm
+        · rw [e] at hm
+          rcases List.mem_append.mp hm with hm | hm
+          · exact hm
+          · simp only [List.mem_singleton, Prod.mk.injEq] at hm
+            obtain ⟨rfl, rfl⟩ := hm
+            rw [hf] at hn; cases hn
+        · rw [e] at hm; exact (mem_nameDel.mp hm).1
+      | proc q' k =>
+        rcases procStep_byName h with ⟨_, e⟩ | ⟨_, e⟩
+        · rwa [e] at hm
+        · rw [e] at hm; exact (mem_nameSweep.mp hm).1
+    have := nameFind_of_mem hu hsub
+    rw [hn] at this
+    rw [Option.some.inj this]
+
+set_option maxRecDepth 8000 in
+example : let st := run (St.init 8) (callEvs 0 (.spawn true) ++ callEvs 0 (.spawn true) ++ callEvs 0 (.register 3 0) ++
+    callEvs 1 (.register 3 1))
+    nameFind 3 st.byName = some 0 ∧ st.out.getLast? = some (1, .taken) := by decide
 
 /-- `register` on an occupied name fails with `NameAlreadyRegistered` and changes neither table nor any process -/
 theorem C18_register_occupied_fails_and_changes_nothing (st : St) (t : Tid) (n : Name) (p q : Pid)
@@ -289,6 +541,7 @@ theorem C18_terminated_unresolvable (cap : Nat) (evs more : List Ev) (p : Pid)
   · exact hout h1
   · rw [h1] at hsw; cases hsw
 
+set_option maxRecDepth 8000 in
 example : let st := run (St.init 8) (callEvs 0 (.spawn true) ++ callEvs 0 (.register 3 0) ++ callEvs 0 (.send 0 7 true) ++
     List.replicate 6 (.proc 0 0))
     (st.procs 0).pc.swept = true ∧ nameFind 3 st.byName = none := by decide
